@@ -94,7 +94,7 @@ def decode_hp(call):
     """HP decoder: HP = 'b-i,b-j,...': the k-th GT allele lies on haplotype number (k-th suffix).
     Returns (block_id, alleles in haplotype order) or None."""
     hp = call.get("HP")
-    if hp in (None, "."):
+    if hp in (None, ".", ""):  # htslib writes an unset String value of Number=. as an empty field
         return None
     alleles, _ = split_gt(call.get("GT"))
     parts = [p.split("-") for p in hp.split(",")]
